@@ -389,7 +389,20 @@ func genMarkupSoup(t *rapid.T) string {
 }
 
 func genC15(t *rapid.T) textCase {
-	switch rapid.IntRange(0, 13).Draw(t, "kind") {
+	switch rapid.IntRange(0, 14).Draw(t, "kind") {
+	case 14:
+		// the bytes of one character spread over several raw sections, with markers around and between them
+		ch := rapid.SampledFrom([]string{"€", "é", "😀", "日", " "}).Draw(t, "char")
+		var b strings.Builder
+		b.WriteString(rapid.SampledFrom([]string{"", "x", "[a]", " ", "[b]y"}).Draw(t, "pre"))
+		for len(ch) > 0 {
+			n := rapid.IntRange(1, len(ch)).Draw(t, "bytes")
+			b.WriteString("[nomarkup]" + ch[:n] + "[/nomarkup]")
+			ch = ch[n:]
+			b.WriteString(rapid.SampledFrom([]string{"", "", "[b]", "[/b]", "[c/]", "[a]", "[/a]", "[/]", "z", " "}).Draw(t, "between"))
+		}
+		b.WriteString(rapid.SampledFrom([]string{"", "xyz", "[/b]", "[/a]w", "[/]", " [c/] "}).Draw(t, "post"))
+		return textCase{Input: b.String(), Kind: "split-character"}
 	case 10, 11:
 		return textCase{Input: genLiberalLine(t), Kind: "liberal"}
 	case 12:
